@@ -112,7 +112,7 @@ Proof.
     + reflexivity.
   - cbn [tv].
     set (rendered := map _ items).
-    set (order := match excl with None => _ | Some _ => _ end).
+    set (order := ordered_keys incl excl _).
     set (kids := flat_map _ order).
     assert (Hr : forall k h, In (k, h) rendered -> wfb h = true).
     { intros k h Hin. subst rendered. apply in_map_iff in Hin. destruct Hin as ([k0 c] & E & Hin).
@@ -223,7 +223,7 @@ Section Present.
     set (label := sq || o_label_keys o) in *.
     set (cl' := option_map _ cl) in *.
     set (rendered := map _ items).
-    set (order := match excl with None => _ | Some _ => _ end).
+    set (order := ordered_keys incl excl _).
     set (kids := flat_map _ order).
     assert (Hr : assoc_key k rendered = Some (child_node label path cl' k c)).
     { subst rendered. unfold child_node.
@@ -231,7 +231,7 @@ Section Present.
                  then El s_tr [] [] [El s_td [] [] (key_cell o (fst kc) (path ++ [fst kc])); El s_td [] [] [tv o [] (None, None) None (path ++ [fst kc]) cl' None None (snd kc)]]
                  else tv o [] (None, None) (Some (fst kc)) (path ++ [fst kc]) cl' None None (snd kc)) k items c Ha). }
     assert (Ho : In k order).
-    { subst order. unfold key_included in Hi. apply andb_prop in Hi. destruct Hi as [Hi He].
+    { subst order. unfold ordered_keys. unfold key_included in Hi. apply andb_prop in Hi. destruct Hi as [Hi He].
       assert (H0 : In k (match incl with None => map fst items | Some l => filter (fun k0 => key_mem k0 (map fst items)) l end)).
       { destruct incl as [l|].
         - apply filter_In. split; [now apply key_mem_In|]. apply key_mem_In. eapply assoc_key_present; eauto.
